@@ -33,7 +33,7 @@ macro_rules! scan {
             let b: [u8; $n] = kani::any();
             let got = find_json_escape(&b, $start);
             assert!(got == first_escape(&b, $start));
-            kani::cover!(got == $n && $start < $n);
+            kani::cover!($start >= $n || got == $n);
             kani::cover!($start >= $n || got == $n - 1);
         }
     };
@@ -241,6 +241,40 @@ writer_2c!(c09_writer_jq_2c, Conv::Jq, write_json_body_jq);
 writer_2c!(c09_writer_jq_ascii_2c, Conv::JqAscii, write_json_body_jq_ascii);
 writer_2c!(c09_writer_yq_2c, Conv::Yq, write_json_body_yq);
 writer_2c!(c09_writer_yq_ascii_2c, Conv::YqAscii, write_json_body_yq_ascii);
+
+/// One arbitrary Unicode scalar value (cheap instance of the harness above).
+macro_rules! writer_1c {
+    ($name:ident, $conv:expr, $write:path) => {
+        #[kani::proof]
+        #[kani::unwind(5)]
+        #[kani::stub(succinctly::util::simd::escape::avx2_enabled, any_bool)]
+        #[kani::stub(core::arch::x86_64::_mm256_subs_epu8, models::mm256_subs_epu8)]
+        #[kani::stub(core::arch::x86_64::_mm_subs_epu8, models::mm_subs_epu8)]
+        fn $name() {
+            let c: char = kani::any();
+            let mut src = [0u8; 4];
+            let l = c.encode_utf8(&mut src).len();
+            let s = unsafe { core::str::from_utf8_unchecked(&src[..l]) };
+            let mut sink = Sink { buf: [0; 96], len: 0 };
+            assert!($write(&mut sink, s).is_ok());
+            let o = &sink.buf[..sink.len];
+            assert!(sink.len > 0);
+            let d = decode_one(o, 0);
+            assert!(d.is_some());
+            let (cp, n, e) = d.unwrap();
+            assert!(cp == c as u32);
+            assert!(e == must_escape($conv, c));
+            assert!(n == o.len());
+            kani::cover!(c as u32 > 0xFFFF);
+            kani::cover!(c == '\u{7f}');
+            kani::cover!((c as u32) < 0x20 && n == 2);
+        }
+    };
+}
+writer_1c!(c09_writer_jq_1c, Conv::Jq, write_json_body_jq);
+writer_1c!(c09_writer_jq_ascii_1c, Conv::JqAscii, write_json_body_jq_ascii);
+writer_1c!(c09_writer_yq_1c, Conv::Yq, write_json_body_yq);
+writer_1c!(c09_writer_yq_ascii_1c, Conv::YqAscii, write_json_body_yq_ascii);
 
 /// yq span copying: a 40-byte ASCII string with a 3-byte arbitrary ASCII window
 /// (controls, quotes, backslashes allowed) at a concrete offset around the
